@@ -333,10 +333,13 @@ func (w *ksWorld) build(cfg fiber.Config) *fiber.App {
 		if c.Get("X-SetHdr") != "" {
 			c.Set("X-Resp-"+strconv.Itoa(id%3), "r"+strconv.Itoa(id))
 		}
-		if !(w.immutMode && !w.immutable && o != nil) {
+		if !(w.immutMode && o != nil) {
 			return c.Next()
 		}
-		// without Immutable: what was read here must read the same until the handler returns
+		if w.immutable && w.yield {
+			w.keep(c, id)
+		}
+		// with or without Immutable: what was read here must read the same until the handler returns
 		var before [][2]string
 		for _, kv := range ksAccess(c) {
 			before = append(before, [2]string{kv[0], strings.Clone(kv[1])})
@@ -349,6 +352,9 @@ func (w *ksWorld) build(cfg fiber.Config) *fiber.App {
 		for _, kv := range before {
 			// Params and Route describe the route that is currently executing: they legitimately differ
 			// between the middleware and the handler further down the chain
+			if kv[0] == "Path" && w.immutable && c.Get("X-Rewrite") != "" {
+				continue // the handler rewrote it
+			}
 			if v, ok := after[kv[0]]; ok && v != kv[1] && !strings.HasPrefix(kv[0], "Params") && !strings.HasPrefix(kv[0], "Route.") {
 				w.s.Fail("C06.stable."+accName(kv[0]), "request %d: %s was %q when the first middleware read it and reads differently after the handler chain ran (still inside the handler)", id, kv[0], kv[1])
 			}
@@ -379,6 +385,11 @@ func (w *ksWorld) build(cfg fiber.Config) *fiber.App {
 		}
 		if w.immutMode && w.immutable && w.yield && o != nil {
 			w.keep(c, id)
+			if c.Get("X-Rewrite") != "" {
+				// the handler rewrites the path (as a rewrite middleware does); what was obtained before is a value of its own
+				c.Path("/rewritten/by/request-" + strconv.Itoa(id))
+				w.s.Count("probe_path_rewritten_after_values_were_kept")
+			}
 		}
 		if w.immutMode && w.wireCheck && o != nil && id >= 0 && id < len(w.reqs) {
 			// with or without the option: what an accessor returns is what the request carried
@@ -397,6 +408,22 @@ func (w *ksWorld) build(cfg fiber.Config) *fiber.App {
 			}
 		}
 	}
+	// a middleware with a parameter of its own that looks at it once more when the chain comes back,
+	// whether a route took the request or none did
+	app.Use("/pm/:tenant", func(c fiber.Ctx) error {
+		err := c.Next()
+		id := opID(c)
+		if o := w.obsOf(id); o != nil && w.immutMode && w.immutable && w.yield {
+			if v := c.Params("tenant"); v != "" {
+				w.kept = append(w.kept, &kept{req: id, accessor: "Params(tenant) after Next", val: v, copy: strings.Clone(v)})
+				if err != nil {
+					w.s.Count("probe_param_read_after_no_route_took_the_request")
+				}
+			}
+		}
+		return err
+	})
+	app.Get("/pm/:tenant/:section/:item", func(c fiber.Ctx) error { final(c, nil); return c.SendString("item") })
 	app.Get("/u/:id/:name?", func(c fiber.Ctx) error {
 		var u bindU
 		err := c.Bind().URI(&u)
@@ -538,6 +565,9 @@ func (w *ksWorld) build(cfg fiber.Config) *fiber.App {
 	})
 	app.Get("/file", func(c fiber.Ctx) error {
 		final(c, nil)
+		if c.Query("missing") != "" {
+			return c.SendFile(ksFilePath + ".does-not-exist")
+		}
 		if c.Query("ma") != "" || c.Query("dl") != "" {
 			return c.SendFile(ksFilePath, fiber.SendFile{MaxAge: fiber.Query[int](c, "ma"), Download: c.Query("dl") != ""})
 		}
@@ -631,6 +661,10 @@ func ksGenerate(s *simrt.Sim, nconn int, flashValid string) []*ksReq {
 			if s.Chance(200) {
 				path += "&dl=1"
 			}
+			if s.Chance(150) {
+				r.kind = "file-missing"
+				path += "&missing=1"
+			}
 		case 15:
 			r.kind = "unknown-method"
 			method, path = "BREW", "/coffee"
@@ -648,6 +682,15 @@ func ksGenerate(s *simrt.Sim, nconn int, flashValid string) []*ksReq {
 			a := seg()
 			path = "/u/" + a
 			r.wire["Params(id)"] = a
+			if s.Chance(350) {
+				r.kind = "tenant-item"
+				path = "/pm/" + a + "/" + seg() + "/" + seg()
+				delete(r.wire, "Params(id)")
+				if s.Chance(500) {
+					r.kind = "tenant-no-route"
+					path = "/pm/" + a + "/" + seg()
+				}
+			}
 		case 2:
 			r.kind = "wild"
 			a := seg() + "/" + seg()
@@ -779,6 +822,9 @@ func ksGenerate(s *simrt.Sim, nconn int, flashValid string) []*ksReq {
 		}
 		if s.Chance(200) {
 			hdr = append(hdr, [2]string{"User-Agent", "ua-" + strconv.Itoa(i)})
+		}
+		if s.Chance(120) {
+			hdr = append(hdr, [2]string{"X-Rewrite", "1"})
 		}
 		if s.Chance(150) {
 			hdr = append(hdr, [2]string{"X-Forwarded-Proto", simrt.PickS(s, "https", "http")})
